@@ -193,15 +193,43 @@ Proof.
     try (destruct (owned_by _ _); [|destruct (m_rec _)]; reflexivity); try reflexivity. destruct (find _ _); reflexivity.
 Qed.
 
+(* Signal::set = lock; flag := true; broadcast; unlock.  A blocked waiter with the flag up means that a setter stands AT
+   its broadcast (it wrote the flag and has not yet woken the waiters), and that broadcast is enabled.  Between the
+   broadcast and the unlock nobody is blocked on the condition: see signal_set_releases_all_waiters_l *)
 Lemma signal_no_waiter_blocked_while_set_l u :
   sigf w = true -> blocked_on SC (st (ps w) u) = true ->
-  exists v, (pc (tc w v) = SigSetUnlock \/ pc (tc w v) = SigSetBcast) /\ enabled w v = true.
+  exists v, pc (tc w v) = SigSetBcast /\ enabled w v = true.
 Proof.
   intros Hf Hb. destruct (ai_siglive _ _ _ HA Hf u Hb) as (v & Hv). exists v. split; auto.
   apply set_steps_enabled. tauto.
 Qed.
 
-(* the broadcast of Signal::set leaves no thread blocked on the signal *)
+(* the setter holds the internal mutex from the flag write to its unlock - in particular while it broadcasts - and
+   both steps are enabled (the woken waiters cannot leave their wait before that unlock) *)
+Lemma signal_set_broadcasts_under_mutex_l t :
+  pc (tc w t) = SigSetBcast \/ pc (tc w t) = SigSetUnlock ->
+  m_owner (mtx (ps w) SM) = Some t /\ enabled w t = true.
+Proof.
+  intros Hp. split.
+  - destruct (ai_sig _ _ _ HA) as (_ & _ & HL). specialize (HL t). unfold sig_local in HL.
+    destruct Hp as [Hp|Hp]; rewrite Hp in HL; exact HL.
+  - apply set_steps_enabled. tauto.
+Qed.
+
+(* the unlock is the last thing set() does: the step that performs it returns from the library call *)
+Lemma signal_set_unlock_is_last_l t : pc (tc w t) = SigSetUnlock ->
+  let w' := step w (Run t) in
+  pc (tc w' t) = Idle /\ trace w' = EvRet t SigSet 0 :: trace w.
+Proof.
+  intros Hp. cbn [step]. rewrite tc_clear_mark, trace_clear_mark. unfold step_run.
+  rewrite (running_at t); [|rewrite Hp; discriminate|rewrite Hp; cbn; discriminate]. cbn [runnable negb].
+  pose proof (ai1 _ _ _ HA t) as H1. rewrite Hp in H1. cbn [pc_ok] in H1.
+  rewrite Hp. cbn [pending prim_step].
+  destruct (owned_by _ _); [|destruct (m_rec _)]; cbn [after_return]; wsimpl; rewrite upd_same, H1; split; reflexivity.
+Qed.
+
+(* the broadcast of Signal::set leaves no thread blocked on the signal (the woken waiters then need the mutex, which the
+   setter releases in its next and last step: signal_set_broadcasts_under_mutex_l, signal_set_unlock_is_last_l) *)
 Lemma signal_set_releases_all_waiters_l t : pc (tc w t) = SigSetBcast ->
   forall u, blocked_on SC (st (ps (step w (Run t))) u) = false.
 Proof.
